@@ -302,3 +302,18 @@ Definition okill (w : oworld) (p : nat) : oworld :=
 Definition oapply (w : oworld) (e : event) : oworld := match e with Run p => ostep w p | Kill p => okill w p end.
 Definition orun (w : oworld) (es : list event) : oworld := fold_left oapply es w.
 Definition oinit (sc : schema) (n : nat) : oworld := {| osch := sc; oprocs := repeat {| oleft := open_steps; oalive := true |} n |}.
+
+(* ------------------------------------------------------------------ the journal-mode switch at the head of the constructor
+   `PRAGMA journal_mode=WAL` needs a lock that sqlite does NOT wait for: when another connection holds a lock at that
+   moment the statement fails with SQLITE_BUSY at once, whatever the busy timeout (the busy handler is not consulted).
+   [busy] is that answer, chosen by the environment at every attempt; [retried] says whether the source repeats the
+   statement (Gen/TxnShapeGen.wal_switch_retried: the loop of IDManager._enable_wal) or executes it once.  The 30 s
+   deadline after which the repaired loop gives up is real time and is not modelled. *)
+Inductive wal_state : Set := WalTodo | WalDone | WalFailed.
+Definition wal_attempt (retried busy : bool) (st : wal_state) : wal_state :=
+  match st with
+  | WalTodo => if busy then (if retried then WalTodo else WalFailed) else WalDone
+  | _ => st
+  end.
+Definition wal_run (retried : bool) (answers : list bool) : wal_state :=
+  fold_left (fun st b => wal_attempt retried b st) answers WalTodo.
